@@ -188,7 +188,22 @@ def hav_closest_other_spelling(m):
     with another spelling of the same point (longitude 180 / -180, a pole with another longitude)."""
     return str(m.get("sub", "")).endswith("_other_spelling")
 
+def rhumb_near_parallel_as_recorded(m):
+    """KF-04..06 are pinned probes: the SAME inputs on every run.  The entry only covers the failure as it was recorded - the
+    closure, the asymmetry of the distance and the uneven split at the midpoint may not be more than 1.5 times what the
+    unchanged tree shows (micrometres); a change that makes the known weakness worse is a new violation."""
+    e = m.get("case", {})
+    try:
+        off = e["b"][1][1]
+        rec = {10: (3_560_535, 3_184_711, 5_425_492), 10000: (15_916, 3_979, 5_767), 1: (53_172_104, 175, 3_538_164_864_361)}[off]
+        um = lambda v: v[0] * 1_000_000_000 + v[1]
+        closure, asym, split = um(e["closure"]), abs(um(e["d_ab"]) - um(e["d_ba"])), abs(um(e["d_am"]) - um(e["d_mb"]))
+    except (KeyError, IndexError, TypeError):
+        return False
+    return closure <= 1.5 * rec[0] + 1000 and asym <= 1.5 * rec[1] + 1000 and split <= 1.5 * rec[2] + 1000
+
 
 PREDS = {f.__name__: f for f in [convex_star, mls_even_shared_endpoint, sweep_inexact_crossing, gc_all_members_empty, monotone_tjunction_panic, stitch_hole_chain,
                                      segmentize_zero_length, segmentize_repeated_vertex, segmentize_piece_count_off_by_one, knearest_hull_not_simple,
-                                     hav_closest_pole_of_circle, hav_closest_arc_over_pole, hav_closest_foot_at_end_precision, hav_closest_other_spelling]}
+                                     hav_closest_pole_of_circle, hav_closest_arc_over_pole, hav_closest_foot_at_end_precision, hav_closest_other_spelling,
+                                     rhumb_near_parallel_as_recorded]}
